@@ -526,6 +526,7 @@ func (fv *FuncVC) VerifyTop() {
 		fv.ctx.Assume(fv.evalClause(env, r))
 	}
 	fv.uses = fv.con.Uses
+	fv.revealed = fv.con.Reveal
 	fv.stack = append(fv.stack, fn)
 	fv.cover("pre", "true", "precondition satisfiable", fv.pos(fn.Pos()))
 	fv.run(fr, args, free, st, "true")
@@ -704,6 +705,7 @@ func VerifyLemma(v *Verifier, l *Lemma, prop string) *FuncVC {
 	fv := NewFuncVC(v, nil, nil, prop)
 	fv.nameOverride = strings.TrimPrefix(l.Pkg, modulePath+"/") + ".lemma:" + l.Name
 	fv.uses = l.Uses
+	fv.revealed = l.Reveal
 	defer func() {
 		if r := recover(); r != nil {
 			if ee, ok := r.(*EngineError); ok {
